@@ -434,6 +434,51 @@ def run_huge(case):
     return result(1, ['huge:%s' % kind(got[0][0])], fails)
 
 
+# --- paired series (CORREL, SLOPE, FORECAST...): an error in one series opposite every kind of element in the other ----------
+PAIRED = ['CORREL', 'SLOPE', 'FORECAST', 'FORECAST.LINEAR', 'SUMX2MY2', 'SUMX2PY2', 'SUMXMY2']
+OPPOSITE = {'num': ('n', 2.0), 'blank': ('blank',), 'text': ('t', 'x'), 'log': ('b', True), 'empty': ('t', ''), 'err': ('e', '#DIV/0!'), 'numtext': ('t', '7')}
+
+
+def paired_cases(functions):
+    for fn in PAIRED:
+        if fn not in functions:
+            continue
+        for n in (3, 5):
+            for pos in range(n):
+                for side in (0, 1):
+                    for opp in OPPOSITE:
+                        for orient in ('col', 'row'):
+                            for err in ('#N/A', '#VALUE!'):
+                                yield ['paired', fn, n, pos, side, opp, orient, err]
+
+
+def run_paired(case):
+    _, fn, n, pos, side, opp, orient, err = case
+    ys = [('n', float(v)) for v in (1, 3, 4, 8, 9)[:n]]
+    xs = [('n', float(v)) for v in (1, 2, 4, 5, 7)[:n]]
+    series = [ys, xs]
+    series[side][pos] = ('e', err)
+    series[1 - side][pos] = OPPOSITE[opp]
+    if orient == 'col':
+        refs = ['B1:B%d' % n, 'C1:C%d' % n]
+        inputs = {refs[k]: ('arr', [[v] for v in series[k]]) for k in (0, 1)}
+    else:
+        refs = ['B1:%s1' % 'BCDEF'[n - 1], 'B2:%s2' % 'BCDEF'[n - 1]]
+        inputs = {refs[k]: ('arr', [list(series[k])]) for k in (0, 1)}
+    f = '=%s(%s%s,%s)' % (fn, '3,' if fn.startswith('FORECAST') else '', refs[0], refs[1])
+    got = evaluate(f, inputs, 'A1')
+    fields = dict(func=fn, base=fn, nargs=2, mode='paired', formula=f, errpos=pos, side=side, opposite=opp, orient=orient, err=err, n=n)
+    if isinstance(got, tuple):
+        return result(1, ['paired:%s' % got[1]], [Fail('missing-output' if got[1] == 'missing-output' else 'raises', got=got[1], exp='an Excel value', gotk=got[1], **fields)])
+    top = got[0][0]
+    fails = []
+    if top[0] == 'BAD':
+        fails.append(Fail('ill-formed', got=top[1], exp='an Excel value', gotk=top[1], **fields))
+    elif top[0] != 'e':
+        fails.append(Fail('error-lost', got=kind(top), exp='an error (%s in series %d opposite %s)' % (err, side, opp), gotk=kind(top), **fields))
+    return result(1, ['paired:%s' % kind(top)], fails)
+
+
 _run_case_functions = run_case
 
 
@@ -442,6 +487,8 @@ def run_case(case):
         return run_many(case)
     if case and case[0] == 'huge':
         return run_huge(case)
+    if case and case[0] == 'paired':
+        return run_paired(case)
     return _run_case_functions(case)
 
 
@@ -461,6 +508,7 @@ def run(ctx):
     ctx.explore(run_case, (c for p in pl for c in cases_of(*p)), chunksize=128, label='function x count x tuples')
     ctx.explore(run_case, many_cases(), chunksize=16, label='calls with 31-40 arguments')
     ctx.explore(run_case, huge_cases(functions), chunksize=16, label='huge magnitudes in array arguments')
+    ctx.explore(run_case, paired_cases(functions), chunksize=32, label='paired series: error opposite every kind')
     return {'oracle_audit': au, 'functions': len(functions), 'function_count_pairs': len({(p[0], p[1]) for p in pl}), 'pool_size': len(A.POOL),
             'full_product_up_to_arity': 3 if ctx.tier == 'thorough' else 2, 'deviation_bound': 3 if ctx.tier == 'thorough' else 2,
             'variadic_cap': 'min+3', 'unbindable_counts': skipped,
